@@ -372,7 +372,7 @@ func C11() int {
 	c11API(s, c)
 	// runs that fail part-way through processing, after ciphertext has been written
 	c11FailingRuns(s, c, validKey)
-	c.Set("race_reports", s.RaceReports())
+	raceVerdict(s, c)
 	if c.Counter("runs") < len(jobs) {
 		c.Inconclusive("not every state × sequence was run")
 	}
